@@ -98,7 +98,13 @@ pub fn check_dag(dag: &Dag, program: bool, k_orders: usize, rng: &mut Rng, case:
     for i in &post {
         visible[*i] = true;
     }
-    let model = ast::infer_masked(dag, program, None, Some(&visible));
+    // the finalisation walk runs over the construction-time DAG, which still holds attached disconnect branches:
+    // their arrows are finalised (and occurs-checked) too, although the commit node that comes out drops them
+    let mut walked = vec![false; dag.len()];
+    for i in prog::ast_post_order_mode(dag, false) {
+        walked[i] = true;
+    }
+    let model = ast::infer_masked2(dag, program, None, Some(&walked), Some(&visible));
     case.count(match &model {
         Ok(_) => "model.well-typed",
         Err(Unsat::Clash { .. }) => "model.clash",
